@@ -11,14 +11,14 @@ import (
 
 // ErrFinding is one error value that does not reach a consumer on some non-nil path.
 type ErrFinding struct {
-	Call     *ast.CallExpr // producing call
-	Callee   string
-	Kind     string // "dropped" (result unused), "blank" (assigned to _), "lost" (non-nil path reaches exit/overwrite without consumer), "logged-only"
-	Where    token.Pos // exit / overwrite position
-	Var      string
-	Detail   string
-	InDefer  bool
-	InGo     bool
+	Call    *ast.CallExpr // producing call
+	Callee  string
+	Kind    string    // "dropped" (result unused), "blank" (assigned to _), "lost" (non-nil path reaches exit/overwrite without consumer), "logged-only"
+	Where   token.Pos // exit / overwrite position
+	Var     string
+	Detail  string
+	InDefer bool
+	InGo    bool
 }
 
 // ErrSite is one analysed producing call.
@@ -345,6 +345,15 @@ func trackErr(info *types.Info, flow *FlowGraph, def ast.Node, obj types.Object,
 		},
 		Edge: edge,
 		OnExit: func(ret *ast.ReturnStmt, b *cfg.Block) Action {
+			if ret == nil {
+				// falling off the end of a function literal (e.g. a deferred closure) while the
+				// error sits in a named result of the enclosing function: it is what gets returned
+				for o := range tracked {
+					if isNamed(o) {
+						return Continue
+					}
+				}
+			}
 			where := flow.Body.End()
 			if ret != nil {
 				where = ret.Pos()
